@@ -92,6 +92,22 @@ func (c c09Case) prepare(code string) func() bool {
 			okk, _ := otp.ValidateOTPWasm(code, c.Key, c.N, otp.Digits(c.Digits), otp.Algorithm(c.Algo))
 			return okk
 		}
+	case "wasmjs-hotp", "wasmjs-totp":
+		// the binding's own exported function (wasm/main.go compiled natively against the stand-in syscall/js)
+		name := "validateHOTP"
+		args := wasmArgs(secret, code, float64(c.N), digitNames[c.Digits], algoNames[c.Algo], c.Skew)
+		if c.Entry == "wasmjs-totp" {
+			name = "validateTOTP"
+			args = wasmArgs(secret, code, float64(c.N), digitNames[c.Digits], algoNames[c.Algo], c.Skew, c.Period)
+		}
+		fn := wasmFn(name)
+		return func() bool {
+			okk, text := wasmCall(fn, args)
+			if text != "" {
+				panic("HARNESS: the binding answered " + text)
+			}
+			return okk
+		}
 	case "rest-hotp", "rest-totp", "rest-ocra":
 		var body []byte
 		path := ""
@@ -154,7 +170,7 @@ func (c c09Case) expected() (centre string, window []string, digests []string) {
 		return e, []string{e}, []string{string(d), hex.EncodeToString(d), strings.ToUpper(hex.EncodeToString(d))}
 	}
 	n := c.N
-	if c.Entry == "totp" || c.Entry == "rest-totp" {
+	if c.Entry == "totp" || c.Entry == "rest-totp" || c.Entry == "wasmjs-totp" {
 		n /= uint64(c.Period)
 	}
 	skew := uint64(c.Skew)
@@ -312,14 +328,18 @@ func consistentlyDiffers(c c09Case, code, baseCode string) bool {
 }
 
 var c09Main = newPart("C09", "traces",
-	"rapid: validation entry points {ValidateHOTP, ValidateTOTP, ValidateOCRA, ValidateOTPWasm (js/wasm file compiled natively through an overlay), REST /hotp/validate, /totp/validate, /ocra/validate driven in-process} x keys x counters/instants x digits 6..10 (OCRA: registered suites) x hashes x windows 0..3; for each, the family of wrong codes sharing exactly k = 0..d-1 leading characters with the expected code E (two tails each), traced with the compiler's libFuzzer comparison instrumentation of the library, the REST layer, bytes, strings, slices, reflect, crypto/subtle and crypto/internal/fips140/subtle; oracles: (A) no string-comparison event has an operand equal to E, to any acceptable code of the window, to a >=3-character fragment of one that the submitted code does not contain, or to the HMAC digest (raw/hex); (B) the vector of event counts per kind is identical for all k and equal to that of a wrong code with no matching position; a planted == and a planted early-exit byte loop must trip (A) and (B) before every run; non-trivial = every case (each has k >= 1 members)",
+	"rapid: validation entry points {ValidateHOTP, ValidateTOTP, ValidateOCRA, ValidateOTPWasm (js/wasm file compiled natively through an overlay), the binding's own validateHOTP / validateTOTP (wasm/main.go compiled natively against a stand-in syscall/js and called through the functions it registers), REST /hotp/validate, /totp/validate, /ocra/validate driven in-process} x keys x counters/instants x digits 6..10 (OCRA: registered suites) x hashes x windows 0..3; for each, the family of wrong codes sharing exactly k = 0..d-1 leading characters with the expected code E (two tails each), traced with the compiler's libFuzzer comparison instrumentation of the library, the REST layer, bytes, strings, slices, reflect, crypto/subtle and crypto/internal/fips140/subtle; oracles: (A) no string-comparison event has an operand equal to E, to any acceptable code of the window, to a >=3-character fragment of one that the submitted code does not contain, or to the HMAC digest (raw/hex); (B) the vector of event counts per kind is identical for all k and equal to that of a wrong code with no matching position; a planted == and a planted early-exit byte loop must trip (A) and (B) before every run; non-trivial = every case (each has k >= 1 members)",
 	checkC09)
 
 func genC09(t *rapid.T) c09Case {
-	c := c09Case{Entry: rapid.SampledFrom([]string{"hotp", "totp", "ocra", "wasm", "rest-hotp", "rest-totp", "rest-ocra"}).Draw(t, "entry")}
+	entries := []string{"hotp", "totp", "ocra", "wasm", "rest-hotp", "rest-totp", "rest-ocra"}
+	if wasmMainAvailable {
+		entries = append(entries, "wasmjs-hotp", "wasmjs-totp")
+	}
+	c := c09Case{Entry: rapid.SampledFrom(entries).Draw(t, "entry")}
 	c.Key = rapid.SliceOfN(rapid.Byte(), 10, 40).Draw(t, "key")
 	c.Digits = rapid.SampledFrom([]int{6, 8, 9, 10}).Draw(t, "digits")
-	if !strings.HasPrefix(c.Entry, "rest") && c.Entry != "ocra" {
+	if !strings.HasPrefix(c.Entry, "rest") && !strings.HasPrefix(c.Entry, "wasmjs") && c.Entry != "ocra" {
 		c.Digits = rapid.IntRange(6, 10).Draw(t, "digitsAny")
 	}
 	c.Algo = rapid.IntRange(0, 2).Draw(t, "algo")
